@@ -37,15 +37,20 @@ class XPathAxis(XPathToken):
     def source(self) -> str:
         return '%s::%s' % (self.symbol, self[0].source)
 
-    def select_with_focus(self, context: XPathContext) -> Iterator[ta.ItemType]:
-        """Select item with an inner focus on dynamic context."""
+    def select_with_focus(self, context: XPathContext, forward: bool = False) \
+            -> Iterator[ta.ItemType]:
+        """
+        Select item with an inner focus on dynamic context. A reverse axis numbers its
+        nodes from the far end for the predicates of the step only: with `forward=True`
+        (operators '/', '//' and '!') the position is the index in the result sequence.
+        """
         status = context.item, context.size, context.position, context.axis
         try:
             results = [x for x in self.select(context)]
             context.item, context.size, context.position, context.axis = status
             context.axis = None
 
-            if self.reverse_axis:
+            if self.reverse_axis and not forward:
                 context.size = context.position = len(results)
                 for context.item in results:
                     yield context.item
